@@ -86,9 +86,19 @@ class WriterPolicy(pythia.Policy):
     return pythia.SuggestDecision(out, metadata=delta)
 
   def early_stop(self, request):
+    # the planned metadata writes can also travel with an early-stopping answer
+    delta = vz.MetadataDelta()
+    for w in self._f.pending:
+      ns = vz.Namespace((ALGO_ROOT,) + tuple(w['ns']))
+      if w.get('trial') is None:
+        delta.on_study.abs_ns(ns)[w['key']] = mk_value(w['value'])
+      else:
+        delta.on_trials[int(w['trial'])].abs_ns(ns)[w['key']] = mk_value(w['value'])
+    self._f.delivered = list(self._f.pending)
+    self._f.pending = []
+    self._f.es_calls += 1
     return pythia.EarlyStopDecisions(
-        [pythia.EarlyStopDecision(id=i, reason='w', should_stop=False) for i in request.trial_ids],
-        vz.MetadataDelta())
+        [pythia.EarlyStopDecision(id=i, reason='w', should_stop=False) for i in request.trial_ids], delta)
 
 
 class WriterFactory(pythia.PolicyFactory):
@@ -98,12 +108,15 @@ class WriterFactory(pythia.PolicyFactory):
     self.pending = []
     self.delivered = []
     self.calls = 0
+    self.es_calls = 0
+    self.es_writer = False
     self.last_n = None
     self.real = real
     self._default = service_policy_factory.DefaultPolicyFactory()
 
   def __call__(self, problem_statement, algorithm, policy_supporter, study_name):
-    if algorithm == 'SEQUENCE':
+    if algorithm == 'SEQUENCE' or (algorithm == 'RANDOM_SEARCH' and self.es_writer):
+      # (the service asks the 'RANDOM_SEARCH' policy for every early-stopping decision)
       return WriterPolicy(self, policy_supporter)
     return self._default(problem_statement, algorithm, policy_supporter, study_name)
 
@@ -130,7 +143,7 @@ class C10(runner.Check):
   probes = ['probe.overwrite', 'probe.algo-write', 'probe.user-write', 'probe.missing-trial-rejected',
             'probe.algo-missing-trial', 'probe.proto-value', 'probe.proto-default-payload', 'probe.proto-overwrites-proto', 'probe.empty-value', 'restart.clean',
             'probe.ns-roundtrip-checked', 'probe.adversarial-namespace', 'probe.long-lived-handle-read', 'probe.creation-time-metadata', 'probe.completed-through-kept-handle',
-            'probe.kept-trial-handle-read']
+            'probe.kept-trial-handle-read', 'probe.algo-write-via-early-stop']
 
   def gen(self, rng, idx, tier):
     cfg = {
@@ -172,7 +185,7 @@ class C10(runner.Check):
     ops = [['CreateStudy', {'o': 0, 'd': 0, 'state': 'ACTIVE', 'md': creation_md() if rng.random() < 0.4 else []}],
            ['SuggestTrials', {'study': ss, 'n': rng.choice([1, 2, 3]), 'worker': 0}]]
     n = rng.randrange(4, 21 if tier == 'quick' else 41)
-    kinds = (['UserStudyMD'] * 4 + ['UserTrialMD'] * 4 + ['RawMD'] * 4 + ['AlgoWrite'] * 4
+    kinds = (['UserStudyMD'] * 4 + ['UserTrialMD'] * 4 + ['RawMD'] * 4 + ['AlgoWrite'] * 4 + ['AlgoWriteES'] * 2
              + ['SuggestTrials'] * 3 + ['CompleteTrial'] * 2 + ['ClientComplete'] * 2
              + ['DeleteTrial', 'CreateTrial', 'CreateTrial', 'Reopen', 'StopTrial'])
     while len(ops) < n:
@@ -186,6 +199,10 @@ class C10(runner.Check):
         ops.append([k, {'study': ss, 'items': items(True)}])
       elif k == 'AlgoWrite':
         ops.append([k, {'study': ss, 'items': items(rng.random() < 0.25), 'n': rng.choice([1, 2]), 'worker': rng.randrange(2)}])
+      elif k == 'AlgoWriteES':
+        # study-only, trial-only or mixed deltas; sometimes nothing at the root namespace level
+        its = items(False, rng.choice([0.0, 0.0, 0.5, 1.0]))
+        ops.append([k, {'study': ss, 'items': its, 'trial': {'pref': 'active', 'i': rng.randrange(6)}}])
       elif k == 'SuggestTrials':
         ops.append([k, {'study': ss, 'n': rng.choice([1, 2, 3]), 'worker': rng.randrange(2)}])
       elif k == 'CompleteTrial':
@@ -231,8 +248,10 @@ class C10(runner.Check):
     clk = simclock.SimClock(epoch=cfg.get('epoch', simclock.EPOCH))
     ent = simclock.Entropy(plan.get('entropy', 0))
     factory = WriterFactory(cfg.get('space', 'int10'))
+    factory.es_writer = cfg.get('algorithm') == 'SEQUENCE'
     with simclock.installed(clk, ent):
       world = O.World(cfg, backend=cfg['backend'], policy_factory=factory)
+      world.clk = clk
       try:
         self._drive(plan, res, world, factory)
       finally:
@@ -402,6 +421,29 @@ class C10(runner.Check):
             if factory.delivered:
               writers.add('algo')
               res.bump('probe.algo-write')
+      elif kind == 'AlgoWriteES':
+        tid = O.resolve_trial(op[1]['trial'], main, view)
+        st_now = view.studies.get(main, {}).get('trials', {}).get(tid)
+        if cfg['algorithm'] == 'SEQUENCE' and (st_now == 'ACTIVE' or (isinstance(st_now, dict) and st_now.get('state') == 'ACTIVE')):
+          items = [it for it in resolve_items(op[1]['items']) if it['trial'] is None or it['trial'] in trials_now]
+          check_roundtrip(items, root=(ALGO_ROOT,))
+          world.clk.advance(61.0)  # beyond the recycle period: the check must reach the algorithm
+          factory.pending = items
+          factory.delivered = []
+          es0 = factory.es_calls
+          r = O.call(sv.CheckTrialEarlyStoppingState, vs.CheckTrialEarlyStoppingStateRequest(trial_name=f'{main}/trials/{tid}'))
+          factory.pending = []
+          if factory.es_calls > es0:
+            res.bump('probe.algo-write-via-early-stop')
+            if r[0] != 'ok':
+              viol.append(('early-stop-with-metadata-failed', f'CheckTrialEarlyStoppingState: {r[1]}'))
+            else:
+              dedup = {}
+              for it in factory.delivered:
+                dedup[(it['trial'], tuple(it['ns']), it['key'])] = it
+              apply_items(list(dedup.values()), root=(ALGO_ROOT,))
+              if factory.delivered:
+                writers.add('algo')
       elif kind == 'ClientComplete':
         tid = O.resolve_trial(op[1]['trial'], main, view)
         if long_lived.get('sv') is sv and tid in trials_now:
